@@ -168,8 +168,15 @@ func Conv(f Format, val interface{}) (v Value, err error) {
 		} else {
 			return String(x), err
 		}
-	case FmtStringList, FmtBinaryList:
+	case FmtStringList:
 		if x, err := toStringList(val); err != nil {
+			return nil, err
+		} else {
+			return StringList(x), err
+		}
+	case FmtBinaryList:
+		// kept as the base64 text of every item
+		if x, err := toBinaryList(val); err != nil {
 			return nil, err
 		} else {
 			return StringList(x), err
@@ -827,6 +834,43 @@ func toBinary(val interface{}) (string, error) {
 	}
 	return "", fmt.Errorf("cannot coerse '%T' to binary value", val)
 
+}
+
+func toBinaryList(val interface{}) ([]string, error) {
+	switch x := val.(type) {
+	case [][]byte:
+		l := make([]string, len(x))
+		for i := range x {
+			l[i] = b64.StdEncoding.EncodeToString(x[i])
+		}
+		return l, nil
+	case []byte, string:
+		item, err := toBinary(x)
+		if err != nil {
+			return nil, err
+		}
+		return []string{item}, nil
+	case []interface{}:
+		l := make([]string, len(x))
+		for i := range x {
+			item, err := toBinary(x[i])
+			if err != nil {
+				return nil, err
+			}
+			l[i] = item
+		}
+		return l, nil
+	}
+	l, err := toStringList(val)
+	if err != nil {
+		return nil, err
+	}
+	for _, item := range l {
+		if _, err := toBinary(item); err != nil {
+			return nil, err
+		}
+	}
+	return l, nil
 }
 
 func toBool(val interface{}) (bool, error) {
